@@ -80,7 +80,7 @@ func execC20Type(c *child.Ctx, t int, r *ref.SplitMix64, extraBodies int) {
 	}
 
 	// synthetic CRC-valid frames of this type with bodies of each decodable layout
-	bodies := []string{"msm4", "msm7", "1005", "1006", "random"}
+	bodies := []string{"msm4", "msm7", "1005", "1006", "random", "len7", "len8"}
 	for i := 0; i < extraBodies; i++ {
 		bodies = append(bodies, []string{"msm4", "msm7", "random", "random"}[i%4])
 	}
@@ -105,6 +105,25 @@ func execC20Type(c *child.Ctx, t int, r *ref.SplitMix64, extraBodies int) {
 				bt = 1006
 			}
 			payload = ref.EncodeBase(gen.RandBase(r, bt), t)
+		case "len7", "len8":
+			// the shortest messages that can hold a timestamp
+			n := 7
+			if body == "len8" {
+				n = 8
+			}
+			payload = append([]byte{byte(t >> 4), byte(t<<4) | byte(r.Intn(16))}, r.Bytes(n-2)...)
+			// a legal non-zero timestamp in bits 24..53
+			var w ref.BitWriter
+			w.Put(uint64(t), 12)
+			w.Put(uint64(r.Intn(4096)), 12)
+			tsv := uint(r.Range(1, 604799999))
+			if ref.ConstellationOf(t) == "Glonass" {
+				tsv = uint(r.Range(1, 6))<<27 | uint(r.Range(1, 86399999))
+			}
+			w.Put(uint64(tsv), 30)
+			w.Put(uint64(r.Intn(1024)), uint(n*8-54))
+			payload = w.Bytes()
+			ts = tsv
 		default:
 			payload = append([]byte{byte(t >> 4), byte(t<<4) | byte(r.Intn(16))}, r.Bytes(2+r.Intn(30))...)
 		}
@@ -168,7 +187,7 @@ func execC20Type(c *child.Ctx, t int, r *ref.SplitMix64, extraBodies int) {
 				}
 				hasTime := m.Timestamp != 0 || m.SentAt != "" || m.StartOfWeek != ""
 				if is4 || is7 {
-					if (body == "msm4" || body == "msm7") && (m.Timestamp != ts || m.SentAt == "") {
+					if (body == "msm4" || body == "msm7" || body == "len7" || body == "len8") && (m.Timestamp != ts || m.SentAt == "") {
 						c.Violate("timestamp", fmt.Sprintf("type %d: extracted timestamp %d (SentAt %q), encoded %d", t, m.Timestamp, m.SentAt, ts), cj)
 					}
 				} else if hasTime {
